@@ -317,3 +317,460 @@ Proof.
   unfold image_point, identity3, mat_vec, fx, fy, fz. cbn [map map2 qdot].
   repeat constructor; ring.
 Qed.
+
+(* ================================================================================================ *)
+(* 4. products distribute over concatenation (up to permutation)                                    *)
+(* ================================================================================================ *)
+
+Lemma Permutation_flat_map_ext : forall (A B : Type) (f g : A -> list B) l,
+  (forall x, In x l -> Permutation (f x) (g x)) -> Permutation (flat_map f l) (flat_map g l).
+Proof.
+  induction l as [|x l IH]; intro H; simpl; [constructor|].
+  apply Permutation_app; [apply H; left; reflexivity|]. apply IH. intros y Hy. apply H. right. exact Hy.
+Qed.
+
+Lemma Permutation_flat_map_l : forall (A B : Type) (f : A -> list B) l l',
+  Permutation l l' -> Permutation (flat_map f l) (flat_map f l').
+Proof.
+  intros A B f l l' H. induction H; simpl.
+  - constructor.
+  - apply Permutation_app_head. exact IHPermutation.
+  - rewrite !app_assoc. apply Permutation_app_tail. apply Permutation_app_comm.
+  - eapply Permutation_trans; eassumption.
+Qed.
+
+Lemma flat_map_app_perm : forall (A B : Type) (h1 h2 : A -> list B) l,
+  Permutation (flat_map (fun b => h1 b ++ h2 b) l) (flat_map h1 l ++ flat_map h2 l).
+Proof.
+  induction l as [|x l IH]; simpl; [constructor|].
+  rewrite <- !app_assoc. apply Permutation_app_head.
+  eapply Permutation_trans; [apply Permutation_app_head; exact IH|].
+  apply Permutation_app_swap_app.
+Qed.
+
+Lemma flat_map_swap : forall (A B C : Type) (g : A -> B -> list C) la lb,
+  Permutation (flat_map (fun a => flat_map (fun b => g a b) lb) la)
+              (flat_map (fun b => flat_map (fun a => g a b) la) lb).
+Proof.
+  induction la as [|a la IH]; intro lb; simpl.
+  - rewrite flat_map_const_nil. constructor.
+  - eapply Permutation_trans; [|apply Permutation_sym; apply flat_map_app_perm].
+    apply Permutation_app_head. apply IH.
+Qed.
+
+(* axes: per direction the list of piece positions and, for every position, the list of entities it holds.
+   The blocks of all pieces (piece positions x fastest) together are a permutation of the product of the per-direction
+   concatenations *)
+Section ProdConcat.
+  Context {P A : Type}.
+  Definition blocks (axes : list (list P * (P -> list A))) (loc : list P) : list (list A) :=
+    prodl (map2 (fun ax p => snd ax p) axes loc).
+
+  Lemma prodl_concat_perm : forall axes : list (list P * (P -> list A)),
+    Permutation (flat_map (blocks axes) (prodl (map fst axes)))
+                (prodl (map (fun ax => flat_map (snd ax) (fst ax)) axes)).
+  Proof.
+    induction axes as [|[L f] rest IH]; [simpl; constructor; constructor|].
+    cbn [map fst snd prodl].
+    rewrite flat_map_flat_map.
+    eapply Permutation_trans;
+      [|apply Permutation_flat_map_l; exact IH].
+    rewrite flat_map_flat_map.
+    apply Permutation_flat_map_ext. intros tl _.
+    rewrite flat_map_map. unfold blocks at 1. cbn [map2 snd prodl].
+    (* left: over p then over t; right: over t then over p *)
+    eapply Permutation_trans; [apply (flat_map_swap _ _ _ (fun p t => map (fun x => x :: t) (f p)))|].
+    apply Permutation_flat_map_ext. intros t _.
+    rewrite map_flat_map. apply Permutation_refl.
+  Qed.
+End ProdConcat.
+
+(* ================================================================================================ *)
+(* 5. StructuredFieldMerger: the index sets of the pieces                                           *)
+(* ================================================================================================ *)
+
+(* positions covered by piece p along one direction: cells [off, off + size), points [off, off + size] *)
+Definition axis_range (extra : nat) (sizes : list nat) (p : nat) : list nat :=
+  seq (nsum (firstn p sizes)) (extra + nth p sizes 0).
+
+Definition merger_axes (extra : nat) (dec : list (list nat)) : list (list nat * (nat -> list nat)) :=
+  map (fun sizes => (seq 0 (length sizes), axis_range extra sizes)) dec.
+
+Lemma axis_cells_concat : forall sizes off,
+  flat_map (fun p => seq (off + nsum (firstn p sizes)) (nth p sizes 0)) (seq 0 (length sizes)) = seq off (nsum sizes).
+Proof.
+  induction sizes as [|s rest IH]; intro off; [reflexivity|].
+  cbn [length]. rewrite <- cons_seq. cbn [flat_map firstn nsum fold_right nth]. rewrite Nat.add_0_r.
+  rewrite <- seq_shift, flat_map_map.
+  rewrite (flat_map_ext_in _ _ _ (fun p => seq ((off + s) + nsum (firstn p rest)) (nth p rest 0))).
+  - rewrite IH. rewrite <- seq_app. reflexivity.
+  - intros p _. cbn [firstn nth]. change (nsum (s :: firstn p rest)) with (s + nsum (firstn p rest)). f_equal. lia.
+Qed.
+
+Lemma shift_prodl : forall off shape, length off = length shape ->
+  map (fun it => map2 Nat.add it off) (prodl (map (seq 0) shape)) = prodl (map2 (fun o s => seq o s) off shape).
+Proof.
+  induction off as [|o off IH]; intros [|s shape] Hl; simpl in Hl; try discriminate; [reflexivity|].
+  cbn [map map2 prodl]. rewrite <- IH by lia. rewrite map_flat_map, flat_map_map.
+  apply flat_map_ext_in. intros tl _. rewrite <- (seq_shift_add o s), !map_map. reflexivity.
+Qed.
+
+(* the code's index list of a piece = the mixed-radix numbers of the product of its per-direction ranges *)
+Lemma pei_as_prodl : forall extra dec loc, length loc = length dec ->
+  piece_entity_indices dec loc (map (Nat.add extra) (piece_shape dec loc)) (map (Nat.add extra) (merged_cell_shape dec))
+  = map (flat_index (map (Nat.add extra) (merged_cell_shape dec))) (blocks (merger_axes extra dec) loc).
+Proof.
+  intros extra dec loc Hl. unfold piece_entity_indices.
+  assert (Hb : blocks (merger_axes extra dec) loc
+               = map (fun it => map2 Nat.add it (piece_index_offsets dec loc))
+                     (locations_in (map (Nat.add extra) (piece_shape dec loc)))).
+  { unfold blocks, locations_in. rewrite shift_prodl.
+    - f_equal. unfold merger_axes, piece_index_offsets, piece_shape, axis_range. clear Hl. revert loc.
+      induction dec as [|s dec IHd]; intros [|p loc]; simpl; try reflexivity.
+      f_equal. apply IHd.
+    - unfold piece_index_offsets, piece_shape. rewrite map_length. clear Hl. revert loc.
+      induction dec as [|s dec IHd]; intros [|p loc]; simpl; try reflexivity. f_equal. apply IHd. }
+  rewrite Hb, map_map. apply map_ext. intro it. apply dot_mults_flat.
+Qed.
+
+Lemma map_add0 : forall l, map (Nat.add 0) l = l.
+Proof. intro l. exact (map_id l). Qed.
+
+Lemma piece_loc_length : forall dec loc, In loc (locations_in (pieces_shape dec)) -> length loc = length dec.
+Proof.
+  intros dec loc H. apply in_locations in H. apply Forall2_len in H. unfold pieces_shape in H.
+  rewrite map_length in H. exact H.
+Qed.
+
+Lemma merger_axes_fst : forall extra dec, prodl (map fst (merger_axes extra dec)) = locations_in (pieces_shape dec).
+Proof. intros. unfold merger_axes, locations_in, pieces_shape. rewrite !map_map. reflexivity. Qed.
+
+(* piece_indices_partition (cells): for EVERY decomposition (any number of directions, any sizes) the cell index lists of
+   the pieces, taken together, are a permutation of 0 .. N_cells - 1: every cell index belongs to exactly one piece *)
+Theorem piece_indices_partition : forall dec,
+  Permutation
+    (flat_map (fun loc => piece_entity_indices dec loc (piece_shape dec loc) (merged_cell_shape dec))
+              (locations_in (pieces_shape dec)))
+    (seq 0 (nprod (merged_cell_shape dec))).
+Proof.
+  intro dec.
+  rewrite (flat_map_ext_in _ _ _ (fun loc => map (flat_index (merged_cell_shape dec)) (blocks (merger_axes 0 dec) loc))).
+  2: { intros loc Hloc. pose proof (pei_as_prodl 0 dec loc (piece_loc_length dec loc Hloc)) as H.
+       rewrite !map_add0 in H. exact H. }
+  rewrite <- map_flat_map. rewrite <- merger_axes_fst with (extra := 0).
+  eapply Permutation_trans; [apply Permutation_map; apply prodl_concat_perm|].
+  assert (Hax : map (fun ax : list nat * (nat -> list nat) => flat_map (snd ax) (fst ax)) (merger_axes 0 dec)
+                = map (seq 0) (merged_cell_shape dec)).
+  { unfold merger_axes, merged_cell_shape. rewrite !map_map. apply map_ext. intro sizes. cbn [fst snd].
+    unfold axis_range. apply (axis_cells_concat sizes 0). }
+  rewrite Hax. fold (locations_in (merged_cell_shape dec)). rewrite locations_x_fastest. apply Permutation_refl.
+Qed.
+
+Lemma nsum_firstn_le : forall sizes p, p < length sizes -> nsum (firstn p sizes) + nth p sizes 0 <= nsum sizes.
+Proof.
+  induction sizes as [|s rest IH]; intros p Hp; simpl in Hp; [lia|].
+  destruct p as [|p]; simpl; [lia|]. specialize (IH p ltac:(lia)). unfold nsum in *. lia.
+Qed.
+
+Lemma axis_point_cover : forall sizes x, sizes <> [] -> x <= nsum sizes ->
+  exists p, p < length sizes /\ In x (axis_range 1 sizes p).
+Proof.
+  induction sizes as [|s rest IH]; intros x Hne Hx; [congruence|].
+  destruct (Nat.le_gt_cases x s) as [Hle|Hgt].
+  - exists 0. split; [simpl; lia|]. unfold axis_range. apply in_seq. simpl. lia.
+  - change (nsum (s :: rest)) with (s + nsum rest) in Hx.
+    assert (Hr : rest <> []) by (intro; subst; simpl in Hx; lia).
+    destruct (IH (x - s) Hr ltac:(lia)) as [p [Hp Hin]].
+    exists (S p). split; [simpl; lia|]. unfold axis_range in *. cbn [firstn nth].
+    change (nsum (s :: firstn p rest)) with (s + nsum (firstn p rest)).
+    apply in_seq in Hin. apply in_seq. lia.
+Qed.
+
+Lemma cover_loc : forall dec x, Forall (fun s => s <> []) dec ->
+  Forall2 (fun xi sizes => xi <= nsum sizes) x dec ->
+  exists loc, Forall2 (fun p sizes => p < length sizes) loc dec /\
+              Forall2 (fun xi r => In xi r) x (map2 (fun ax p => snd ax p) (merger_axes 1 dec) loc).
+Proof.
+  intros dec x Hne H. induction H as [|xi sizes x dec Hxi Hrest IH].
+  - exists []. split; constructor.
+  - inversion Hne; subst. destruct (IH H2) as [loc [Hl Hin]].
+    destruct (axis_point_cover sizes xi H1 Hxi) as [p [Hp Hpi]].
+    exists (p :: loc). split; constructor; assumption.
+Qed.
+
+Lemma Forall2_weaken : forall (A B : Type) (R R' : A -> B -> Prop) la lb,
+  (forall a b, R a b -> R' a b) -> Forall2 R la lb -> Forall2 R' la lb.
+Proof. intros A B R R' la lb Hi H. induction H; constructor; auto. Qed.
+
+Lemma Forall2_map_r : forall (A B C : Type) (R : A -> C -> Prop) (f : B -> C) la lb,
+  Forall2 (fun a b => R a (f b)) la lb <-> Forall2 R la (map f lb).
+Proof.
+  intros A B C R f la lb. split.
+  - intro H. induction H; simpl; constructor; assumption.
+  - revert la. induction lb as [|b lb IH]; intros la H; inversion H; subst; constructor; [assumption|apply IH; assumption].
+Qed.
+
+(* piece_indices_partition (points): the point index lists of the pieces cover 0 .. N_points - 1 (with overlaps on the
+   lattice points shared between neighbouring pieces) *)
+Theorem piece_indices_cover_points : forall dec, Forall (fun s => s <> []) dec ->
+  forall k, k < nprod (merged_point_shape dec) ->
+  exists loc, In loc (locations_in (pieces_shape dec)) /\
+    In k (piece_entity_indices dec loc (map S (piece_shape dec loc)) (merged_point_shape dec)).
+Proof.
+  intros dec Hne k Hk. unfold merged_point_shape in *.
+  set (x := nth k (locations_in (map S (merged_cell_shape dec))) []).
+  assert (Hx : In x (locations_in (map S (merged_cell_shape dec)))) by (apply nth_In; rewrite locations_length; exact Hk).
+  assert (Hkx : flat_index (map S (merged_cell_shape dec)) x = k) by (apply nth_location_index; exact Hk).
+  apply in_locations in Hx.
+  assert (Hx' : Forall2 (fun xi sizes => xi <= nsum sizes) x dec).
+  { unfold merged_cell_shape in Hx. rewrite map_map in Hx. apply Forall2_map_r in Hx.
+    eapply Forall2_weaken; [|exact Hx]. simpl. intros; lia. }
+  destruct (cover_loc dec x Hne Hx') as [loc [Hl Hin]].
+  exists loc. split.
+  - apply in_locations. unfold pieces_shape. apply (proj1 (Forall2_map_r _ _ _ lt (@length nat) loc dec)). exact Hl.
+  - change (map S (piece_shape dec loc)) with (map (Nat.add 1) (piece_shape dec loc)).
+    change (map S (merged_cell_shape dec)) with (map (Nat.add 1) (merged_cell_shape dec)).
+    rewrite pei_as_prodl by (exact (Forall2_len _ _ _ loc dec Hl)).
+    rewrite <- Hkx. apply in_map. unfold blocks. apply in_prodl. exact Hin.
+Qed.
+
+(* every index of a piece is a valid index of the merged array *)
+Lemma pei_in_range : forall extra dec loc k, extra <= 1 -> In loc (locations_in (pieces_shape dec)) ->
+  In k (piece_entity_indices dec loc (map (Nat.add extra) (piece_shape dec loc)) (map (Nat.add extra) (merged_cell_shape dec))) ->
+  k < nprod (map (Nat.add extra) (merged_cell_shape dec)).
+Proof.
+  intros extra dec loc k He Hloc Hk.
+  rewrite pei_as_prodl in Hk by (apply piece_loc_length; exact Hloc).
+  apply in_map_iff in Hk. destruct Hk as [x [Hkx Hx]]. subst k.
+  apply location_of_index. unfold blocks in Hx. apply in_prodl in Hx.
+  apply in_locations in Hloc. unfold pieces_shape, merger_axes, merged_cell_shape in *.
+  clear -Hx Hloc He. revert loc x Hx Hloc.
+  induction dec as [|sizes dec IH]; intros loc x Hx Hloc.
+  - simpl in Hloc. inversion Hloc; subst. simpl in Hx. inversion Hx; subst. constructor.
+  - simpl in Hloc. inversion Hloc as [|p m loc' ms Hp Hloc']; subst.
+    simpl in Hx. inversion Hx as [|xi r x' rs Hxi Hx']; subst.
+    simpl. constructor.
+    + unfold axis_range in Hxi. apply in_seq in Hxi. pose proof (nsum_firstn_le sizes p Hp). lia.
+    + apply (IH loc' x' Hx' Hloc').
+Qed.
+
+(* ================================================================================================ *)
+(* 6. StructuredFieldMerger._merge                                                                  *)
+(* ================================================================================================ *)
+
+Section Scatter.
+  Variable V : Type.
+  Variable z : V.
+
+  Lemma upd_length : forall (l : list V) i v, length (upd l i v) = length l.
+  Proof. induction l as [|h t IH]; intros [|i] v; simpl; try reflexivity. rewrite IH. reflexivity. Qed.
+
+  Lemma upd_nth_same : forall (l : list V) i v, i < length l -> nth i (upd l i v) z = v.
+  Proof. induction l as [|h t IH]; intros [|i] v Hi; simpl in *; try lia; [reflexivity|]. apply IH. lia. Qed.
+
+  Lemma upd_nth_other : forall (l : list V) i k v, k <> i -> nth k (upd l i v) z = nth k l z.
+  Proof.
+    induction l as [|h t IH]; intros [|i] [|k] v Hk; simpl; try reflexivity; try congruence.
+    apply IH. congruence.
+  Qed.
+
+  Lemma scatter_spec : forall (h : nat -> V) idx (l : list V),
+    (forall i, In i idx -> i < length l) ->
+    length (scatter l idx (map h idx)) = length l /\
+    forall k, k < length l ->
+      (In k idx -> nth k (scatter l idx (map h idx)) z = h k) /\
+      (~ In k idx -> nth k (scatter l idx (map h idx)) z = nth k l z).
+  Proof.
+    intros h idx. induction idx as [|i idx IH]; intros l Hr; simpl.
+    - split; [reflexivity|]. intros k _. split; [intros []|reflexivity].
+    - assert (Hi : i < length l) by (apply Hr; left; reflexivity).
+      destruct (IH (upd l i (h i))) as [Hlen Hk].
+      { intros j Hj. rewrite upd_length. apply Hr. right. exact Hj. }
+      rewrite upd_length in Hlen, Hk. split; [exact Hlen|].
+      intros k Hkl. destruct (Hk k Hkl) as [H1 H2]. split.
+      + intros [He|Hin].
+        * subst k. destruct (in_dec Nat.eq_dec i idx) as [Hi'|Hi']; [apply H1; exact Hi'|].
+          rewrite H2 by exact Hi'. apply upd_nth_same. exact Hi.
+        * apply H1. exact Hin.
+      + intro Hn. rewrite H2 by (intro; apply Hn; right; assumption).
+        apply upd_nth_other. intro; subst; apply Hn; left; reflexivity.
+  Qed.
+
+  (* writing, piece after piece, the restriction of g to the piece's indices over an initial array gives g wherever some
+     piece wrote (later writes to a shared index write the same value) *)
+  Lemma scatter_fold_global : forall (g : list V) (idxs : list (list nat)) (acc : list V),
+    length acc = length g ->
+    (forall idx, In idx idxs -> forall i, In i idx -> i < length g) ->
+    let r := fold_left (fun a idx => scatter a idx (map (fun k => nth k g z) idx)) idxs acc in
+    length r = length g /\
+    forall k, k < length g -> (nth k acc z = nth k g z \/ exists idx, In idx idxs /\ In k idx) -> nth k r z = nth k g z.
+  Proof.
+    intros g idxs. induction idxs as [|idx idxs IH]; intros acc Hlen Hr; simpl.
+    - split; [exact Hlen|]. intros k _ [H|[idx [[] _]]]. exact H.
+    - destruct (scatter_spec (fun k => nth k g z) idx acc) as [Hl Hs].
+      { intros i Hi. rewrite Hlen. apply (Hr idx); [left; reflexivity|exact Hi]. }
+      destruct (IH (scatter acc idx (map (fun k => nth k g z) idx))) as [Hl' Hk'].
+      { rewrite Hl. exact Hlen. }
+      { intros idx' Hin. apply Hr. right. exact Hin. }
+      split; [exact Hl'|]. intros k Hk Hor. apply Hk'; [exact Hk|].
+      rewrite <- Hlen in Hk. destruct (Hs k Hk) as [H1 H2].
+      destruct (in_dec Nat.eq_dec k idx) as [Hin|Hnin]; [left; apply H1; exact Hin|].
+      destruct Hor as [Ha|[idx' [[He|Hin'] Hki]]].
+      + left. rewrite H2 by exact Hnin. exact Ha.
+      + subst idx'. contradiction.
+      + right. exists idx'. split; assumption.
+  Qed.
+End Scatter.
+
+Lemma fold_left_ext_in : forall (A B : Type) (f g : A -> B -> A) (l : list B) (a : A),
+  (forall acc x, In x l -> f acc x = g acc x) -> fold_left f l a = fold_left g l a.
+Proof.
+  induction l as [|x l IH]; intros a H; simpl; [reflexivity|].
+  rewrite H by (left; reflexivity). apply IH. intros acc y Hy. apply H. right. exact Hy.
+Qed.
+
+Lemma fold_left_map : forall (A B C : Type) (f : A -> C -> A) (h : B -> C) (l : list B) (a : A),
+  fold_left (fun acc x => f acc (h x)) l a = fold_left f (map h l) a.
+Proof. induction l as [|x l IH]; intro a; simpl; [reflexivity|]. apply IH. Qed.
+
+Lemma entity_shape_add : forall is_point s, entity_shape is_point s = map (Nat.add (if is_point then 1 else 0)) s.
+Proof. intros [|] s; simpl; [reflexivity|symmetry; apply map_add0]. Qed.
+
+(* structured_merge_is_global: if the field handed in for every piece is the restriction of a global (x-fastest numbered)
+   field g to the piece's entities, the merged field is g — for point and for cell fields, for every decomposition *)
+Theorem structured_merge_is_global : forall (V : Type) (zero : V) (dec : list (list nat)) (is_point : bool)
+    (g : list V) (field_of : list nat -> list V),
+  Forall (fun s => s <> []) dec ->
+  length g = nprod (entity_shape is_point (merged_cell_shape dec)) ->
+  (forall loc, In loc (locations_in (pieces_shape dec)) ->
+     field_of loc = map (fun k => nth k g zero)
+                        (piece_entity_indices dec loc (entity_shape is_point (piece_shape dec loc))
+                                              (entity_shape is_point (merged_cell_shape dec)))) ->
+  smerge zero dec is_point field_of = g.
+Proof.
+  intros V zero dec is_point g field_of Hne Hlen Hf. unfold smerge.
+  set (mshape := entity_shape is_point (merged_cell_shape dec)) in *.
+  set (idx_of := fun loc => piece_entity_indices dec loc (entity_shape is_point (piece_shape dec loc)) mshape).
+  rewrite (fold_left_ext_in _ _ _ (fun acc loc => scatter acc (idx_of loc) (map (fun k => nth k g zero) (idx_of loc)))).
+  2: { intros acc loc Hloc. rewrite (Hf loc Hloc). reflexivity. }
+  rewrite (fold_left_map _ _ _ (fun acc idx => scatter acc idx (map (fun k => nth k g zero) idx)) idx_of).
+  rewrite <- Hlen.
+  destruct (scatter_fold_global V zero g (map idx_of (locations_in (pieces_shape dec))) (repeat zero (length g))) as [Hl Hk].
+  { apply repeat_length. }
+  { intros idx Hin i Hi. apply in_map_iff in Hin. destruct Hin as [loc [He Hloc]]. subst idx.
+    rewrite Hlen. unfold idx_of, mshape in *. rewrite !entity_shape_add in *.
+    apply (pei_in_range _ dec loc i); [destruct is_point; lia|exact Hloc|exact Hi]. }
+  apply (nth_ext _ _ zero zero); [exact Hl|]. intros k Hkr. rewrite Hl in Hkr.
+  apply Hk; [exact Hkr|]. right.
+  assert (Hcov : exists loc, In loc (locations_in (pieces_shape dec)) /\ In k (idx_of loc)).
+  { unfold idx_of, mshape in *. destruct is_point.
+    - apply (piece_indices_cover_points dec Hne). rewrite Hlen in Hkr. exact Hkr.
+    - simpl entity_shape in *. rewrite Hlen in Hkr.
+      assert (Hin : In k (seq 0 (nprod (merged_cell_shape dec)))) by (apply in_seq; lia).
+      apply (Permutation_in _ (Permutation_sym (piece_indices_partition dec))) in Hin.
+      apply in_flat_map in Hin. exact Hin. }
+  destruct Hcov as [loc [Hloc Hin]]. exists (idx_of loc). split; [apply in_map; exact Hloc|exact Hin].
+Qed.
+
+(* ================================================================================================ *)
+(* 7. the readers' cell-index map and the meshio bridge                                             *)
+(* ================================================================================================ *)
+
+(* reader_cell_index_map: keyed by the mesh's own cell type the cell data of every structured file can be attached *)
+Theorem reader_key_fixed_ok : forall k dim, cell_data_readable reader_key_fixed k dim = true.
+Proof. intros. unfold cell_data_readable, reader_key_fixed. apply Nat.eqb_refl. Qed.
+
+(* finding F-C07a: the pinned .vts reader keys the map by QUAD — right only for two meshed directions *)
+Theorem reader_key_pinned_refuted :
+  cell_data_readable reader_key_pinned Curvilinear 1 = false /\
+  cell_data_readable reader_key_pinned Curvilinear 3 = false /\
+  cell_data_readable reader_key_pinned Curvilinear 2 = true /\
+  (forall dim, cell_data_readable reader_key_pinned Image dim = true) /\
+  (forall dim, cell_data_readable reader_key_pinned Rectilinear dim = true).
+Proof.
+  repeat split; try reflexivity; intro dim; unfold cell_data_readable, reader_key_pinned; apply Nat.eqb_refl.
+Qed.
+
+Definition rows_of {A : Type} (t : nat) (pairs : list (nat * list A)) : list A :=
+  concat (map snd (filter (fun kv => fst kv =? t) pairs)).
+Definition glookup {A : Type} (t : nat) (d : list (nat * list A)) : list A :=
+  match find (fun kv => fst kv =? t) d with Some kv => snd kv | None => [] end.
+
+Lemma glookup_dict_app : forall (A : Type) t k (v : list A) d,
+  glookup t (dict_app k v d) = if k =? t then glookup t d ++ v else glookup t d.
+Proof.
+  intros A t k v d. unfold glookup. induction d as [|[k' v'] d IH]; simpl.
+  - destruct (k =? t); reflexivity.
+  - destruct (k' =? k) eqn:E; simpl.
+    + apply Nat.eqb_eq in E. subst k'. destruct (k =? t); reflexivity.
+    + destruct (k' =? t) eqn:E2; [|exact IH].
+      destruct (k =? t) eqn:E3; [|reflexivity].
+      apply Nat.eqb_eq in E2, E3. subst. rewrite Nat.eqb_refl in E. discriminate.
+Qed.
+
+Lemma dict_app_keys : forall (A : Type) k (v : list A) d k',
+  In k' (map fst (dict_app k v d)) <-> k' = k \/ In k' (map fst d).
+Proof.
+  intros A k v d k'. induction d as [|[k0 v0] d IH]; simpl.
+  - intuition.
+  - destruct (k0 =? k) eqn:E; simpl.
+    + apply Nat.eqb_eq in E. subst. intuition.
+    + rewrite IH. intuition.
+Qed.
+
+Lemma group_fold_lookup : forall (A : Type) t (pairs : list (nat * list A)) d,
+  glookup t (fold_left (fun d kv => dict_app (fst kv) (snd kv) d) pairs d) = glookup t d ++ rows_of t pairs.
+Proof.
+  intros A t pairs. induction pairs as [|[k v] pairs IH]; intro d; simpl.
+  - unfold rows_of. simpl. rewrite app_nil_r. reflexivity.
+  - rewrite IH, glookup_dict_app. unfold rows_of. simpl. destruct (k =? t); simpl.
+    + rewrite <- app_assoc. reflexivity.
+    + reflexivity.
+Qed.
+
+Lemma group_fold_keys : forall (A : Type) t (pairs : list (nat * list A)) d,
+  In t (map fst (fold_left (fun d kv => dict_app (fst kv) (snd kv) d) pairs d)) <-> In t (map fst d) \/ In t (map fst pairs).
+Proof.
+  intros A t pairs. induction pairs as [|[k v] pairs IH]; intro d; simpl.
+  - intuition.
+  - rewrite IH, dict_app_keys. intuition.
+Qed.
+
+(* every block's cells appear in the group of its type, blocks in listing order *)
+Lemma group_blocks_in : forall (A : Type) t (pairs : list (nat * list A)),
+  In t (map fst pairs) -> In (t, rows_of t pairs) (group_blocks pairs).
+Proof.
+  intros A t pairs Hin. unfold group_blocks.
+  pose proof (group_fold_lookup A t pairs []) as Hl. unfold glookup in Hl at 1. simpl in Hl.
+  pose proof (proj2 (group_fold_keys A t pairs []) (or_intror Hin)) as Hk.
+  destruct (find (fun kv => fst kv =? t) (fold_left (fun d kv => dict_app (fst kv) (snd kv) d) pairs [])) as [[k v]|] eqn:Ef.
+  - apply find_some in Ef. destruct Ef as [Hi He]. simpl in He. apply Nat.eqb_eq in He. subst k.
+    simpl in Hl. subst v. exact Hi.
+  - apply in_map_iff in Hk. destruct Hk as [[k v] [He Hi]]. simpl in He. subst k.
+    pose proof (find_none _ _ Ef _ Hi) as Hc. simpl in Hc. rewrite Nat.eqb_refl in Hc. discriminate.
+Qed.
+
+(* from_meshio_blocks (repaired bridge): the cells and the cell data of EVERY block appear in the result, under the block's
+   cell type, blocks of one type concatenated in listing order and data aligned with the cells *)
+Theorem from_meshio_fixed_blocks : forall (V : Type) (blocks : list (nat * list (list nat))) (data : list (list V)),
+  length data = length blocks ->
+  exists res, from_meshio_fixed blocks data = Some res /\
+    forall t, In t (map fst blocks) ->
+      In (t, (rows_of t blocks, rows_of t (combine (map fst blocks) data))) res.
+Proof.
+  intros V blocks data Hl. eexists. split; [reflexivity|].
+  intros t Ht. apply in_map_iff.
+  exists (t, rows_of t blocks). split; [|apply group_blocks_in; exact Ht].
+  simpl. f_equal. f_equal.
+  pose proof (group_fold_lookup V t (combine (map fst blocks) data) []) as Hg.
+  unfold glookup in Hg. simpl in Hg. unfold group_blocks. exact Hg.
+Qed.
+
+(* finding F-C07b: blocks triangle, quad, triangle — the pinned bridge loses the first triangle block and attaches its
+   datum (10) to the cell of the last one; the repaired bridge keeps both triangles with 10 and 30 *)
+Theorem from_meshio_pinned_refuted :
+  let blocks := [(5, [[0; 1; 2]]); (9, [[0; 1; 2; 3]]); (5, [[1; 2; 3]])] in
+  let data := [[10]; [20]; [30]] in
+  from_meshio_pinned blocks data = Some [(5, ([[1; 2; 3]], [10])); (9, ([[0; 1; 2; 3]], [20]))] /\
+  from_meshio_fixed blocks data = Some [(5, ([[0; 1; 2]; [1; 2; 3]], [10; 30])); (9, ([[0; 1; 2; 3]], [20]))].
+Proof. vm_compute. split; reflexivity. Qed.
